@@ -520,6 +520,125 @@ Definition parse_request (cx : actx) (ep : endpoint) (rq : request) (now : Z) (j
         end
     end.
 
+(* ------------------------------------------------------------------ delivery forms: encrypted wrappers *)
+(* A client_assertion / request parameter AS DELIVERED.  A provider that owns a decryption key (it publishes the
+   public half, e.g. for encrypted request objects) is handed compact JWEs as well, and anybody can make one.
+   cryptojwt's JWT.unpack, called by all three JWS-based methods:
+       _decryptor = jwe_factory(token)
+       if _decryptor:  _info = self._decrypt(_decryptor, token)          # raises when no key of mine decrypts
+                       _content_type = headers.get("cty", "")
+       else:           _content_type = "jwt"; _info = token
+       if _content_type.lower() == "jwt":
+           _verifier = jws_factory(_info)
+           if _verifier: _info = self._verify(_verifier, _info)           # signature check, keys of the iss
+           else: raise Exception()
+           _jws_header = _verifier.jwt.headers
+       else:
+           try: _info = json.loads(_info)          # claims WITHOUT any signature check, _jws_header stays None
+           except JSONDecodeError: return _info    # the plaintext itself (str / bytes), not a message
+   [mine]: one of the provider's private keys decrypts the wrapper; [cty]: the JWE header carries cty = JWT. *)
+Inductive content :=
+| CTok (t : token)                            (* the plaintext is a compact JWS (Jwt j) / some other text (NotJwt) *)
+| CJson (j : jwt)                             (* the plaintext is the bare JSON claims of j; nobody signed: j_alg / j_key
+                                                 / j_kid of j mean nothing *)
+| CJwe (mine cty : bool) (c : content).       (* the plaintext is another compact JWE *)
+Inductive wire :=
+| WPlain (t : token)                          (* not a JWE: what [token] has described so far *)
+| WJwe (mine cty : bool) (c : content).
+
+Inductive opened :=
+| OSigned (t : token)      (* goes through jws_factory / _verify: handled as the bare token t *)
+| OUnsigned (j : jwt)      (* unpack hands back claims that NO signature check has seen; jws_header is None *)
+| ORaw                     (* unpack hands back the plaintext as it is: a str / bytes object, no claims at all *)
+| OFail.                   (* decryption failed, or `raise Exception()`: the content typed JWT is no JWS *)
+
+Definition open_assertion (w : wire) : opened :=
+  match w with
+  | WPlain t => OSigned t
+  | WJwe false _ _ => OFail
+  | WJwe true true (CTok (Jwt j)) => OSigned (Jwt j)
+  | WJwe true true _ => OFail                 (* text, bare JSON or a JWE typed as JWT: jws_factory gives None *)
+  | WJwe true false (CJson j) => OUnsigned j
+  | WJwe true false _ => ORaw                 (* a JWS / JWE / text without cty is not JSON: returned as is *)
+  end.
+
+(* JWSAuthnMethod._verify on a delivered object.  After unpack:
+       _sign_alg = ca_jwt.jws_header.get("alg")       # AttributeError: jws_header is None / a str has no jws_header
+   verify_client takes any such exception for "this method failed, try the next one" *)
+Definition jws_verify_w (cx : actx) (ep : endpoint) (now : Z) (m : meth) (hs : bool) (w : wire) (jdb : jti_db)
+  : vres * jti_db :=
+  match open_assertion w with
+  | OSigned t => jws_verify cx ep now m hs t jdb
+  | OUnsigned _ | ORaw | OFail => (VSkip, jdb)
+  end.
+(* RequestParam._verify on a delivered object.  After unpack:
+       if not getattr(_jwt, "jws_header", None): raise ValueError("The request object is not signed") *)
+Definition request_param_verify_w (cx : actx) (now : Z) (w : wire) (jdb : jti_db) : vres * jti_db :=
+  match open_assertion w with
+  | OSigned t => request_param_verify cx now t jdb
+  | OUnsigned _ | ORaw | OFail => (VSkip, jdb)
+  end.
+
+(* The request as delivered, and the bare request the method loop treats in the same way: a delivered object that
+   opens to a JWS is that JWS; one that does not is handled like an object nobody signed (alg none) - every
+   JWS-based method gives up on it whatever the provider's state ([seen_equiv_*] in Proofs), and no other method
+   looks at it. *)
+Definition unsigned_jwt (j : jwt) : jwt :=
+  {| j_alg := AlgNone; j_key := j_key j; j_kid := None; j_iss := j_iss j; j_sub := j_sub j; j_azp := j_azp j;
+     j_cid := j_cid j; j_aud := j_aud j; j_exp := j_exp j; j_nbf := j_nbf j; j_iat := j_iat j; j_jti := j_jti j |}.
+Definition no_claims : jwt :=
+  {| j_alg := AlgNone; j_key := KSym []; j_kid := None; j_iss := None; j_sub := None; j_azp := None; j_cid := None;
+     j_aud := None; j_exp := None; j_nbf := None; j_iat := None; j_jti := None |}.
+Definition seen (w : wire) : token :=
+  match open_assertion w with
+  | OSigned t => t
+  | OUnsigned j => Jwt (unsigned_jwt j)
+  | ORaw | OFail => Jwt no_claims
+  end.
+
+Record wrequest := {
+  w_hdr : header;
+  w_client_id : option pystr;  w_client_secret : option pystr;
+  w_access_token : option pystr;
+  w_assertion : option wire;
+  w_request : option wire;
+  w_authflag : bool }.
+Definition deliver (q : wrequest) : request :=
+  {| r_hdr := w_hdr q; r_client_id := w_client_id q; r_client_secret := w_client_secret q;
+     r_access_token := w_access_token q; r_assertion := option_map seen (w_assertion q);
+     r_request := option_map seen (w_request q); r_authflag := w_authflag q |}.
+(* the same request with every wrapper taken off *)
+Definition unwrapped (q : wrequest) : wrequest :=
+  {| w_hdr := w_hdr q; w_client_id := w_client_id q; w_client_secret := w_client_secret q;
+     w_access_token := w_access_token q; w_assertion := option_map (fun w => WPlain (seen w)) (w_assertion q);
+     w_request := option_map (fun w => WPlain (seen w)) (w_request q); w_authflag := w_authflag q |}.
+
+(* one method on the request as delivered (the method classes as they are written) *)
+Definition verify_method_w (cx : actx) (ep : endpoint) (q : wrequest) (now : Z) (jdb : jti_db) (m : meth)
+  : vres * jti_db :=
+  match m with
+  | MSecretJwt =>
+      match w_assertion q with Some w => jws_verify_w cx ep now MSecretJwt true w jdb | None => (VSkip, jdb) end
+  | MPrivateJwt =>
+      match w_assertion q with Some w => jws_verify_w cx ep now MPrivateJwt false w jdb | None => (VSkip, jdb) end
+  | MRequestParam =>
+      match w_request q with Some w => request_param_verify_w cx now w jdb | None => (VSkip, jdb) end
+  | _ => verify_method cx ep (deliver q) now jdb m
+  end.
+Definition client_authentication_w (cx : actx) (ep : endpoint) (q : wrequest) (now : Z) (jdb : jti_db)
+  : res (option auth_info) * jti_db := client_authentication cx ep (deliver q) now jdb.
+Definition parse_request_w (cx : actx) (ep : endpoint) (q : wrequest) (now : Z) (jdb : jti_db)
+  : res parsed * jti_db := parse_request cx ep (deliver q) now jdb.
+
+(* the delivered object a JWS-based method looked at *)
+Definition used_wire (q : wrequest) (m : meth) : option wire :=
+  match m with
+  | MSecretJwt | MPrivateJwt => w_assertion q
+  | MRequestParam => w_request q
+  | _ => None
+  end.
+Definition jws_method (m : meth) : bool := meth_in m [MSecretJwt; MPrivateJwt; MRequestParam].
+
 (* ------------------------------------------------------------------ the inner claims of an assertion *)
 (* the same signed JWT with other values for the claims that name a client besides iss *)
 Definition jwt_with_inner (s a c : option pystr) (j : jwt) : jwt :=
